@@ -62,6 +62,7 @@ Section Main.
     - apply step_commit; assumption.
     - apply step_append; assumption.
     - apply step_heartbeat; assumption.
+    - apply step_snapshot; assumption.
     - eapply step_emit; eassumption.
     - apply step_junk; assumption.
   Qed.
